@@ -360,6 +360,8 @@ def check_property(prop, tier, seed):
     tasks = []
     for ct in contracts:
         for sc in ct.scenarios:
+            if tier == "quick" and getattr(sc, "thorough_only", False):
+                continue
             n = getattr(ct, "shards", 1)
             tasks.extend((ct.key, sc.name, timeout_ms, prop, i, n) for i in range(n))
     tasks += [("lemma:" + l.name, "lemma", timeout_ms, prop) for l in w.lemmas if prop in l.serves]
